@@ -78,6 +78,80 @@ CHECKS["C20"] = dict(
          "exactly when given and their truthiness is safe; the installed SLY driver still resets per-call state.",
     note="Trusted: CPython, SLY internals beyond the re-verified reset shape.", ref="5 C20")
 
+
+def _c(pid, technique, text, note):
+    CHECKS[pid] = dict(technique=technique, text=text, note=note, ref="5 " + pid)
+
+
+_c("C01", "template extraction by abstract interpretation of the SQLite visitor + precedence/meaning-table rules on templates (static)",
+   "Decides the structural clauses of the property (necessary conditions; breaking one breaks the behaviour for a nameable filter), "
+   "not SQLite's evaluation: grouping preserved under SQLite precedence for every admissible (template, hole, child template) triple; "
+   "well-formed templates, no placeholder, operands once and in order; operators spelled by SQLite tokens of the same meaning; eq/ne null "
+   "rendered with IS [NOT] on either side; LIKE patterns escaped with an ESCAPE clause; function handlers match the meaning table "
+   "(argument flow, index shifts, strftime codes, wildcard sides). Induction over tree depth lifts the triples to all nestings.",
+   "Not decided: three-valued logic, collation, numeric/date function results in SQLite. Oracles: SQLite precedence table and function "
+   "meanings (data in sa/props/c01.py, sa/sqltok.py). Known findings F07, F08.")
+_c("C02", "constructor-term extraction by abstract interpretation of the Django visitor + meaning-table comparison (static)",
+   "Decides the structural clauses: operator -> Django construct mapping with operand order; custom NotEqual lookup; COMPARISON_FLIP "
+   "involution; eq/ne null polarity and refusal for other comparators; every djangofunc_* against the meaning table; promotion to Q "
+   "exactly at depth 0; shorthand annotates before filtering on the incoming queryset; substring family type-checks both operands.",
+   "Not decided: Django's SQL compilation and execution for all table contents.")
+_c("C03", "constructor-term extraction by abstract interpretation of both SQLAlchemy visitors + sibling cross-check (static)",
+   "Decides the structural clauses: operator mapping and operand order; case-normalised reads of case-preserving literal text; escape "
+   "discipline and type checks of contains/startswith/endswith; function handlers against the meaning table; ORM and Core resolve to the "
+   "same handler for everything but field resolution, and both visit_Compare build op(left, right); null on either side of eq/ne goes "
+   "through the IS form.",
+   "Not decided: what the compiled statements return; run-time equality of the three entry styles. Known finding F18.")
+_c("C04", "logical normalisation of the terms built by visit_CollectionLambda + installed-library signature reading + Core F shape facts (static)",
+   "Decides the structural clauses: paths are left-nested and lambda owners are full paths in the parser's image; any(p)/any()/all(p) are "
+   "built as exists/exists/not-exists-not on both ORMs (keyword arguments count only if the installed constructor declares them); the "
+   "lambda body is made relative and translated by a sub-visitor on the related model; to-one joins are outer joins; Django path spelling.",
+   "Not decided: per-parent correlation, many-to-many semantics, run-time agreement of both ORMs.")
+_c("C06", "regular-language inclusion / shadowing / maximal-munch on DFAs of the ordered token rules over an exact alphabet partition (static)",
+   "Decides the recognition clause for all spellings: for each literal kind and identifiers, the ABNF language is included in its rule, no "
+   "earlier rule matches a prefix of a well-formed token in any follow context the grammar allows, the rule matches exactly the token, the "
+   "action applies exactly the documented normalisation, DURATION_PATTERN covers the lexer's duration language with groups in order and "
+   "the documented 365.25/30.44 constants. Quick uses ASCII + curated Unicode representatives, thorough all code points.",
+   "Not decided: numeric/calendar correctness of int/float/fromisoformat/isoparse/UUID/timedelta (library code).")
+_c("C07", "taint analysis over extracted SQL templates (quote regions, transform chains, token alphabets) for the three dialects (static)",
+   "Decides the property modulo SQL lexical facts: every string value sits in exactly one '...' region with quote doubling last, every "
+   "identifier value in one \"...\" region with a quote-free alphabet, every other raw value has a safe alphabet, no child SQL or "
+   "untraceable text inside quotes, alias only inside a quoted identifier. Templates compose only through holes, so the facts lift to all filters.",
+   "Trusted: '' is the only escape in SQL strings; \" delimits identifiers.")
+_c("C08", "taint analysis over the constructor terms of the Django/SQLAlchemy visitors (binding constructors vs text sinks) (static)",
+   "Decides the property modulo 'Value/literal/bindparam/GEOSGeometry/Q(**{k: v}) bind': every read of a literal's value in any handler's "
+   "returned term sits directly in a binding constructor and never under a text sink or string formatting; the annotation-name helper "
+   "stays unreachable with value-bearing expressions on the installed Django.",
+   "Trusted: the binding behaviour of the listed constructors; unknown constructors give exit 2, never a verdict.")
+_c("C09", "template extraction by abstract interpretation of the three SQL visitors + well-formedness/precedence/once-in-place rules (static)",
+   "Decides, per dialect and table-alias configuration: templates are well-formed (balanced, operands present, CASE skeleton, non-empty, raw "
+   "values are SQL tokens for every accepted spelling); no hole resolves to a missing handler; grouping preserved for every admissible triple "
+   "under SQL-92 and Trino (standard), Trino (Athena), SQLite; every operand/argument exactly once, operands in source order; alias only "
+   "qualifies identifiers.",
+   "Not decided: acceptance by a real Presto/SQL-92 parser. Known findings F07, F09.")
+_c("C12", "exhaustiveness over dispatch-reachable kinds + outcome analysis of every handler path of the seven visitors (static)",
+   "Decides: every (visitor, kind) reachable through self.visit from a filter's root has a handler or a refusing generic_visit; handlers name "
+   "real kinds and reachable functions; function dispatch uses the full dotted name; arities fit signatures; every reachable raise is a "
+   "library exception (or the documented NotImplementedError of Core); attribute reads are defined on every kind that reaches them for "
+   "well-typed arguments; SQLAlchemy field lookups are guarded so unknown names become InvalidFieldException.",
+   "Not decided: exceptions raised inside Django/SQLAlchemy at compile time. Known findings F27, F28.")
+_c("C13", "printer templates vs the parser's LALR decision relation, lexer-action inverses and token languages (static)",
+   "Decides the property for the parser's image: parentheses wherever the automaton would regroup, for every (parent operator, slot, child "
+   "operator) triple; literal templates are the inverse of the lexer actions with the right fixed prefix/suffix; singleton-list syntax; every "
+   "reachable kind handled; separators lex as the grammar's tokens. Structural induction over depth.",
+   "Relies on C05 for the decision relation being the specification's.")
+_c("C15", "builder-chain analysis of the shorthands by abstract interpretation + class-body analysis of GenericFunction registration (static)",
+   "Decides: results are built from the incoming query by additive builders only, ending in exactly one filter of the translated clause; "
+   "collected joins are applied (outer) before the filter or skipped only if present; Django annotations applied before filter; every "
+   "GenericFunction subclass declares its own package (registration rule re-read from the installed SQLAlchemy); no module-level write into "
+   "SQLAlchemy's namespace.",
+   "Not decided: row-level equality with the base query, SQLAlchemy's join de-duplication, legacy Query internals.")
+_c("C19", "DFA closure checks on token rules + grammar position checks + case-sensitivity analysis of every consumer of case-variant text (static)",
+   "Decides: whitespace-bearing token languages are closed under replacing whitespace runs; the lexer is case-insensitive throughout; "
+   "optional whitespace is allowed at every advertised position; every consumer of text that keeps the user's case (Boolean, DateTime T/Z, "
+   "Float exponent) in ast.py and in all back ends is case-insensitive.",
+   "Trusted: dateutil treats t/z like T/Z; float() and SQL numeric literals accept e/E.")
+
 NOT_YET = {}
 
 PENDING_REASON = "check not built yet in this session (work in progress; see DESIGN.md section 8)"
